@@ -3,8 +3,8 @@ import engine_common as ec
 import engine_plugin as ep
 
 ID = "C02"
-LEAN_MODULES = ['HgVerif.Props.C02', 'HgVerif.Model.Engine', 'HgVerif.Model.Extracted']
-THEOREMS = ['HgVerif.Sched.scan_next_lower', 'HgVerif.Sched.scan_next_is_slot', 'HgVerif.Sched.due_node_evaluated', 'HgVerif.Sched.cycle_next_gt', 'HgVerif.Sched.sim_times_strict', 'HgVerif.Sched.sim_times_window', 'HgVerif.Sched.armed_wakeup_honoured', 'HgVerif.Tie.tie_slotConsumed', 'HgVerif.Tie.tie_slotEarlier', 'HgVerif.Tie.tie_cacheFuture', 'HgVerif.Tie.tie_cacheEarlier', 'HgVerif.Tie.tie_startFoldFrom', 'HgVerif.Tie.tie_scanRunsWhen', 'HgVerif.Tie.tie_scanFoldFuture']
+LEAN_MODULES = ['HgVerif.Props.C02', 'HgVerif.Props.C02Fail', 'HgVerif.Model.Engine', 'HgVerif.Model.Extracted']
+THEOREMS = ['HgVerif.Sched.scan_next_lower', 'HgVerif.Sched.scan_next_is_slot', 'HgVerif.Sched.due_node_evaluated', 'HgVerif.Sched.cycle_next_gt', 'HgVerif.Sched.sim_times_strict', 'HgVerif.Sched.sim_times_window', 'HgVerif.Sched.armed_wakeup_honoured', 'HgVerif.Sched.cinv_scanFrom_any', 'HgVerif.Sched.failed_cycle_next_lower', 'HgVerif.Sched.failed_cycle_next_is_slot', 'HgVerif.Sched.armed_wakeup_survives_failure', 'HgVerif.Tie.tie_failKeepsWakeups', 'HgVerif.Tie.tie_keepFuture', 'HgVerif.Tie.tie_keepEarlier', 'HgVerif.Tie.tie_slotConsumed', 'HgVerif.Tie.tie_slotEarlier', 'HgVerif.Tie.tie_cacheFuture', 'HgVerif.Tie.tie_cacheEarlier', 'HgVerif.Tie.tie_startFoldFrom', 'HgVerif.Tie.tie_scanRunsWhen', 'HgVerif.Tie.tie_scanFoldFuture']
 CXX_TARGETS = ['hgv_engine']
 USES_EXTRACT = True
 RULE = 'generated graphs with script nodes issuing random scheduler requests (relative/absolute/tagged, cancels, start-phase requests, requests for the current time, equal times from different nodes, consecutive smallest steps) mixed with input-driven evaluation and self-scheduling nodes inside nested graphs; random start/end (requests at/after end); non-trivial = at least 2 cycles with user code; distinct by program text'
@@ -18,6 +18,7 @@ LEVEL_NOTE = 'Trusted: Lean kernel + standard axioms; engine model tied by corre
 def streams(rng, tier, seed):
     n = 150 if tier == "quick" else 4000
     progs = [ec.gen_flat(rng, sched=True) for _ in range(n)] + [ec.gen_nested(rng, both=False) for _ in range(n // 3)]
+    progs += [ec.gen_try_sched(rng) for _ in range(n // 3)]     # wake-ups pending in a child whose cycle an exception ends
     return [ec.engine_stream("engine-sched", progs)]
 
 
